@@ -26,7 +26,7 @@ RULE = (
     "Generated: 1-4 tasks (single or inside parallel elements; in / not in reporting; full, warm-up-only, empty, no-throughput), per task "
     "and metric a stream of warm-up and normal records (normal counts 0-5, {1,2,9,10,99,100}+-1, random <= 130, 12 % of cases one stream "
     "of 998-1002, 2 % one of 9999-10001; values in [0, 1e9]: zeros, ints, floats, repeated, nearly equal, deterministic fill blocks), "
-    "success flags, put order (warm-up first / last / interleaved), optional cluster-level telemetry records, optional whole result "
+    "success flags, put order (warm-up first / last / interleaved), records of the tasks of a parallel element interleaved in the store, optional cluster-level telemetry records, optional whole result "
     "structure for the race file round trip. Non-trivial = at least 2 tasks, some task has warm-up and normal records of one metric, and "
     "some request-metric stream has a normal count in {1,2,9,10,99,100,999,1000,9999,10000}. Distinct = distinct canonical JSON."
 )
